@@ -929,6 +929,17 @@ fn compare(env: &Value, calls: &[String], exp_outs: &[Value], exp_reqs: &[Value]
         let (ex, ax) = (&eo["x"], &ao["x"]);
         if ex != ax {
             let case = json!({"call": n, "op": call, "expected": ex, "got": ax});
+            // the connection was lost under the call (the server closed at a scripted position), the model ends the call with
+            // an error, the code ends it with something else: also C04's (a pending operation after a connection failure)
+            let lost = env["loss"]["pg"].as_i64().unwrap_or(0) > 0 && env["loss"]["how"] != "silent";
+            let (ek, ak) = match call {
+                "next" => (ex["k"].as_str(), ax["k"].as_str()),
+                "drain" | "search" => (ex["x"]["k"].as_str(), ax["x"]["k"].as_str()),
+                _ => (None, None),
+            };
+            if lost && ek == Some("err") && ak.is_some() && ak != Some("err") && ak != Some("hang") {
+                keys.push((format!("c04:stream:{}:{}:connection-lost-got-{}", call, chain, ak.unwrap_or("?")), case.clone()));
+            }
             match call {
                 "start" => {
                     if ex["e"] == "adapterinit" || ax["e"] == "adapterinit" {
